@@ -55,6 +55,9 @@ type c03Spec struct {
 	// Bystanders: the same Client is also connected to this many other servers, so that Client.AddRoots notifies
 	// several sessions; it must still have handed the notification to this session's transport when it returns.
 	Bystanders int `json:"bystanders,omitempty"`
+	// CancelInit (raw-init): the peer withdraws its initialize request (notifications/cancelled) while the slow
+	// initialize is still being handled; what it sent after it must still wait for initialize to finish
+	CancelInit bool `json:"cancel_init,omitempty"`
 }
 
 func genC03(r *vh.Rand) c03Spec {
@@ -94,6 +97,9 @@ func genC03(r *vh.Rand) c03Spec {
 			op.CancelMs = r.Range(1, 4)
 		}
 		s.Ops = append(s.Ops, op)
+	}
+	if s.Mode == "raw-init" && !s.Batch && r.Bool() {
+		s.CancelInit = true
 	}
 	for _, op := range s.Ops {
 		if op.Kind == "roots" && s.Bystanders == 0 && r.Bool() {
@@ -446,6 +452,9 @@ func runC03Raw(c *vh.Case, spec c03Spec) {
 				} `json:"error"`
 			}
 			json.Unmarshal(sc.Bytes(), &m)
+			if m.ID != nil {
+				log.Add("response", "id", fmt.Sprint(m.ID))
+			}
 			if m.Error != nil {
 				log.Add("error-response", "id", fmt.Sprint(m.ID), "code", m.Error.Code, "msg", m.Error.Message)
 			}
@@ -458,6 +467,12 @@ func runC03Raw(c *vh.Case, spec c03Spec) {
 	}
 	log.Add("send", "n", -1, "kind", "call")
 	send(fmt.Sprintf(`{"jsonrpc":"2.0","id":"init","method":"initialize","params":{"protocolVersion":%q,"capabilities":{},"clientInfo":{"name":"raw","version":"0"}}}`, pv))
+	if spec.CancelInit {
+		if spec.InitDur > 1 {
+			time.Sleep(ms(1)) // initialize is being handled by now
+		}
+		send(`{"jsonrpc":"2.0","method":"notifications/cancelled","params":{"requestId":"init","reason":"changed my mind"}}`)
+	}
 	log.Add("send", "n", -2, "kind", "notify")
 	send(`{"jsonrpc":"2.0","method":"notifications/initialized"}`)
 	if spec.Batch {
@@ -512,6 +527,8 @@ func decideC03(c *vh.Case, spec c03Spec) {
 	}
 	evs := c.Log.Events()
 	send, start, finish := map[int]vh.Event{}, map[int]vh.Event{}, map[int]vh.Event{}
+	var initAnswered int64 = -1
+	var early []string
 	for _, e := range evs {
 		n := fint(e, "n")
 		switch e.Kind {
@@ -525,13 +542,33 @@ func decideC03(c *vh.Case, spec c03Spec) {
 			start[n] = e
 		case "handler-finish":
 			finish[n] = e
+		case "response":
+			// raw-init: nothing sent after initialize is handled, let alone answered, before initialize is
+			if id := fstr(e, "id"); id == "init" {
+				initAnswered = e.T
+			} else if initAnswered < 0 || e.T < initAnswered {
+				early = append(early, id)
+			}
 		case "error-response":
+			if spec.CancelInit {
+				break // a withdrawn initialize fails, and what follows it is refused: expected
+			}
 			c.Violate("pipelined-message-rejected", "pipelined message id=%s was answered with error %d %q (later messages overtook initialize?)", fstr(e, "id"), fint(e, "code"), fstr(e, "msg"))
 			return
 		case "call-failed":
 			c.Violate("call-failed", "call %d failed: %s", n, fstr(e, "err"))
 			return
 		}
+	}
+	if spec.Mode == "raw-init" && len(early) > 0 {
+		c.Violate("overtook-initialize", "requests %v, sent after initialize, were answered before initialize was (answered at %dus): they were handled while it was still in progress", early, initAnswered)
+		return
+	}
+	if spec.CancelInit {
+		// a withdrawn initialize may fail, and what was sent after it is then refused: only the order above is decided
+		c.Count("cancelled_initialize_cases", 1)
+		c.Nontrivial(fmt.Sprintf("cancel-init:%d:%d", spec.InitDur, len(spec.Ops)))
+		return
 	}
 	type item struct {
 		n    int
